@@ -90,8 +90,12 @@ func main() {
 			I    int             `json:"i"`
 			Case json.RawMessage `json:"case"`
 		}
-		if json.Unmarshal(cur, &m) != nil || m.I < start {
+		if json.Unmarshal(cur, &m) != nil {
 			die("worker failed and left no usable marker: %v\n%s", err, tail(string(outb), 3000))
+		}
+		if m.I < start {
+			// the worker died before it marked its first case after the restart: blame that case
+			m.I, m.Case = start, json.RawMessage(`{"note":"died before marking the case"}`)
 		}
 		crashes++
 		if crashes > 200 {
